@@ -1,14 +1,18 @@
 #!/bin/bash
-# usage: eval_mutants.sh Cxx  -> runs ./check Cxx against each /tmp/mut_Cxx_out/mN patch in the /tmp/mut_Cxx worktree
+# usage: eval_mutants.sh Cxx [prefix] -> runs ./check Cxx against each /tmp/<prefix>_Cxx_out/mN patch in the
+# scratch worktree /tmp/<prefix>_Cxx (checked out at /repo's current HEAD first). prefix defaults to "mut".
 P=$1
+PFX=${2:-mut}
+W=/tmp/${PFX}_$P
 cd /verif
-git -C /tmp/mut_$P checkout -q -- . ; git -C /tmp/mut_$P checkout -q --detach $(git -C /repo rev-parse HEAD)
-for m in m1 m2 m3; do
+git -C $W checkout -q -- . ; git -C $W checkout -q --detach $(git -C /repo rev-parse HEAD)
+for d in /tmp/${PFX}_${P}_out/m*; do
+  m=$(basename $d)
   echo "== $P $m"
-  if git -C /tmp/mut_$P apply /tmp/mut_${P}_out/$m/patch.diff; then
-    VERIF_REPO=/tmp/mut_$P timeout 3000 ./check $P 2>&1 | grep -E "VIOLATION|^  \(|^\[$P\]" | head -6 | cut -c1-260
+  if git -C $W apply $d/patch.diff; then
+    VERIF_REPO=$W timeout 3000 ./check $P 2>&1 | grep -E "VIOLATION|^  \(|^\[$P\]" | head -6 | cut -c1-260
   else
     echo "PATCH DOES NOT APPLY"
   fi
-  git -C /tmp/mut_$P checkout -q -- .
+  git -C $W checkout -q -- .
 done
